@@ -382,6 +382,10 @@ def resize_program(case, ctx):
                 if st_["mode"] == "edge":
                     vals = (mv[0], mv[-1])
                 samp = "min" if st_["n"] % 4 else float(span / (2 + st_["n"]))
+                if samp == "min" and ((lo - e0) + (e1 - hi)) / float(np.min(np.diff(mw))) > 2e5:
+                    # padding at the finest existing spacing would add more than 2e5 samples (after appends /
+                    # resamples the finest spacing can be tiny compared with the range): ask for a coarser one
+                    samp = float(span / (2 + st_["n"]))
                 s.pad((e0, e1), sampling=samp, **kw)
                 expect = ("pad", e0, e1, vals, samp)
             elif op == "pad_bad":
@@ -424,6 +428,8 @@ def resize_program(case, ctx):
                 s.resample(g, waveunit=unit)
         except Violation:
             raise
+        except MemoryError:
+            raise Skip("memory_cap") from None
         except Exception as e:  # noqa: BLE001 - any refusal is acceptable; integrity is what matters
             refused += 1
             well_formed("C15.resize", s, what + f" (refused with {type(e).__name__})")
